@@ -185,10 +185,58 @@ PROPS["C46"] = dict(
     note="Trusted: TLC, Json module, the harness HTTP server/FIFO gating and the occurrence-by-occurrence output comparison.")
 
 
+# ---------------------------------------------------------------------------------- ir (C09, C10, C11)
+def corrupt_ir(lines, pid):
+    for e in lines:
+        if e.get("ev") != "decl" or e.get("err") == 1:
+            continue
+        o = e["obs"]
+        if pid == "C09" and len(o["objs"]) >= 2:
+            o["objs"][0], o["objs"][1] = o["objs"][1], o["objs"][0]
+            return "first two objects swapped in an observed graph"
+        if pid == "C10" and o["objs"]:
+            o["objs"][0]["shape"] = "hexagon"
+            return "shape of an observed object changed"
+        if pid == "C11" and len(o["edges"]) >= 1:
+            o["edges"][-1]["idx"] += 1
+            return "index of an observed connection incremented"
+    return None
+
+
+_SPECS = _os.path.join(_os.path.dirname(_os.path.dirname(_os.path.abspath(__file__))), "specs")
+FAMILIES["ir"] = dict(vdrive="ir", trace_module="TraceD2IR", trace_cfg="TraceD2IR.cfg", corrupt=corrupt_ir, engine="TraceD2IR",
+                      args={"alphabet": _os.path.join(_SPECS, "ir_alphabet.json")}, chunk=6000, heap="4g",
+                      cex_input=lambda acts: {"prog": acts})
+_ir_base = dict(
+    quick=[dict(module="D2IR", cfg="D2IR_quick.cfg"),
+           dict(module="D2IR", cfg="D2IR_stable.cfg", note="the code's numbering after the fix (one past the highest index in use) satisfies IndexedRefHitsOne"),
+           dict(module="D2IR", cfg="D2IR_count.cfg", expect="violation", note="pre-fix rule 'index of a new connection = number of survivors' must break IndexedRefHitsOne; the counter-example is replayed into the real compiler"),
+           dict(module="D2IR", cfg="D2IR_labelcode.cfg", expect="violation", note="code rule 'label field beats primary value' must break LastWriterWins (KF-C10-1)")],
+    thorough=[dict(module="D2IR", cfg="D2IR_thorough.cfg", timeout=1800),
+              dict(module="D2IR", cfg="D2IR_stable.cfg"),
+              dict(module="D2IR", cfg="D2IR_count.cfg", expect="violation"),
+              dict(module="D2IR", cfg="D2IR_labelcode.cfg", expect="violation")])
+_ir_rule = ("programs over the 38-declaration alphabet specs/ir_alphabet.json (objects at depth 1-2 in three casings, labels, shapes, two style attributes, attribute null, object null, "
+            "connections in 4 arrow forms incl. self and nested endpoints, indexed connection updates and deletions): every program of length <= 2 (quick) / <= 3 (thorough) and "
+            "2500 / 30000 seeded programs of length up to 7 / 10 biased to connections or nulls, declarations rendered flat or as nested maps; every line prefix is compiled. Non-trivial: ")
+_ir_assume = ["the alphabet fixes the fragment; names are opaque to TLC, case folding is the alphabet's table",
+              "DEVIATION-1..3 of D2IR.tla: where the property text is silent the model follows the code (containers created by null on a missing key; in-source index numbering after a deletion - both numberings accepted)",
+              "object IDs are parsed back with the real d2parser.ParseKey before comparison"]
+for _pid, _nt, _txt in [("C09", "length >= 2", "TreeWF/EndpointsWF hold on every reachable model state; object and connection lists of every compiled prefix equal the model's (membership, order of first appearance, parent links, first spelling)."),
+                        ("C10", "length >= 3 or contains a null", "LastWriterWins/FreshAfterNull hold as action properties of the model; labels, shapes and style attributes of every compiled prefix equal the model's last-writer state."),
+                        ("C11", "contains an indexed connection update or deletion", "IndexedRefHitsOne/IndexedNullRemovesOne/DistinctIDs hold on the model under the property's numbering; on the real compiler indexes must be consecutive per bundle in list order, an indexed update may change at most one connection, a missing index must be an error.")]:
+    PROPS[_pid] = dict(
+        family="ir", level="model_checking", design_ref="4.4", base=_ir_base,
+        technique="TLA+ reference interpreter of the D2 core fragment as a state machine (one Declare per source declaration) model-checked by TLC over all programs within the bound; every line prefix of every program compiled by the real d2compiler and compared by TLC with the model state, aspect by aspect",
+        rule=_ir_rule + _nt + ".", exhaustive=dict(quick=True, thorough=True), assumptions=_ir_assume, text=_txt,
+        note="Trusted: TLC, Json module, the projection in harness/internal/proj (uses the real ParseKey), the renderer of declarations to D2 text in harness/cmd/vdrive/ir.go.")
+
+
 # ------------------------------------------------------------------------------- manifest data
 HOOK_COMMITS = ["9d004ebd4", "879b5d739"]
 
 ENGINES = {
+    "TraceD2IR": dict(path="specs/D2IR.tla, specs/TraceD2IR.tla, specs/ir_alphabet.json", kind="TLA+ reference interpreter of the D2 core fragment (TLC, all programs within bound) + TLC comparison of every compiled program prefix with the model state"),
     "TraceImgBundle": dict(path="specs/ImgBundle.tla, specs/TraceImgBundle.tla", kind="TLA+ model of imgbundler.runWorkers (TLC, all interleavings x failure subsets) + TLC validation of real runs with imposed completion orders"),
     "TraceD2Watch": dict(path="specs/D2Watch.tla, specs/TraceD2Watch.tla", kind="TLA+ model of d2 --watch concurrency (TLC safety+liveness) + TLC trace validation of hook traces of the real watcher (D2Watch instantiated over the replayed state)"),
     "TraceFSWrite": dict(path="specs/FSOps.tla, specs/FSWrite.tla, specs/BoardPaths.tla, specs/TraceFSWrite.tla", kind="TLA+ POSIX file-system model + write protocols with Crash (TLC), board-to-file path derivation (TLC), TLC validation of strace-recorded system calls of the real d2 binary"),
